@@ -42,7 +42,7 @@ def recording_edges(fn, prov):
 class Lazy:
     def __init__(self, facts):
         self.facts = facts
-        self.prov = Prov(facts)
+        self.prov = Prov(facts, max_depth=6)      # the stack's answer is a chain of small predicates (stack -> line -> is_recording -> field)
         self.inv = Invokes(facts, self.prov)
         self.memo = {}
 
